@@ -54,6 +54,8 @@ Values read from such attributes travel as value_token(v, intern).
   ['movefeat', c, name, d, via]  the feature `name` of class c goes to class d (0: nowhere); via 'container'
                                  (feature.eContainingClass = D / None, the single-valued end) | 'append' (D.eStructuralFeatures.append)
   ['moveop', c, name, d, via]    the same for an operation (operation.eContainingClass = D / None | D.eOperations.append)
+  ['delclass', k]                class k .delete(): it stops being anybody's super type (either channel) and loses its own content
+  ['rebound', c, name, ub]       <feature name of c>.upperBound = ub   (many-valued iff ub < 0 or ub > 1)
   ['pkg', c, what]               what 'set' (c.ePackage = a package) | 'add' (package.eClassifiers.append(c)) | 'unset'   (no effect)
 
 Run as a script (`python -P harness/metaedit_io.py`) it is the isolated worker:
@@ -90,7 +92,7 @@ def enc_name(s):
 
 
 def default_text(tkind):
-    return {'int': '0', 'str': 'None', 'bool': 'False', 'ref': 'None', 'sdt': "'hello'", 'enum': 'lit_a=0'}[tkind]     # 'enum': repr of the literal OBJECT, as inspect.signature shows it
+    return {'int': '0', 'str': 'None', 'bool': 'False', 'ref': 'None', 'sdt': "'hello'", 'enum': 'lit_a=0', 'none': 'None'}[tkind]     # 'enum': repr of the literal OBJECT, as inspect.signature shows it
 
 
 def enc_param(p, intern):
@@ -128,7 +130,7 @@ def enc_op(op, intern):
 
 
 ORACLE_ONLY = ('addgen', 'retgen', 'rmgen', 'cleargens', 'movegen', 'annot', 'typar', 'addattr', 'setdefault',
-               'look', 'movefeat', 'moveop', 'pkg')
+               'look', 'movefeat', 'moveop', 'pkg', 'delclass', 'rebound')
 
 # tkind (name of the pyecore data type) -> (default of the type, a falsy declared default, a truthy one, their literals)
 ATTR_TYPES = {
@@ -189,6 +191,10 @@ def apply_param_edits(params, edits):
             ps = [list(p) for p in e[1]]
         elif e[0] == 'pop':                                  # eParameters.pop() / pop(i)
             ps.pop(e[1])
+        elif e[0] == 'retype':                               # parameter.eType = <type of kind e[2]>  ('none': None)
+            ps[e[1]][2] = e[2]
+        elif e[0] == 'rename':                               # parameter.name = e[2]
+            ps[e[1]][0] = e[2]
         else:
             raise AssertionError(e)
     return ps
@@ -456,7 +462,7 @@ class Impl:
     def ptype(self, tkind):
         ec = self.ec
         return {'int': ec.EInt, 'str': ec.EString, 'bool': ec.EBoolean, 'ref': self.classes[1] if len(self.classes) > 1 else None,
-                'sdt': self.sdt, 'enum': self.enum}[tkind]
+                'sdt': self.sdt, 'enum': self.enum, 'none': None}[tkind]
 
     def sig_tokens(self, m):
         bid = getattr(m, 'beh_id', None)
@@ -609,6 +615,19 @@ class Impl:
                     o.eContainingClass = self.classes[d] if d else None
                 else:
                     self.classes[d].eOperations.append(o)
+                return 0, []
+            if k == 'delclass':
+                c = op[1]
+                for f in self.feats[c]:
+                    self.dead_feats[(c, f.name)] = f
+                for o in self.ops[c]:
+                    self.dead_ops[(c, o.name)] = o
+                self.feats[c], self.ops[c], self.gens[c] = [], [], []
+                self.classes[c].delete()
+                return 0, []
+            if k == 'rebound':
+                _, c, name, ub = op
+                next(x for x in self.feats[c] if x.name == name).upperBound = ub
                 return 0, []
             if k == 'pkg':
                 _, c, what = op
@@ -788,6 +807,10 @@ class Impl:
                         o.eParameters = [self.new_param(q) for q in e[1]]
                     elif e[0] == 'pop':
                         ps.pop() if e[1] == -1 else ps.pop(e[1])
+                    elif e[0] == 'retype':
+                        ps[e[1]].eType = self.ptype(e[2])
+                    elif e[0] == 'rename':
+                        ps[e[1]].name = e[2]
                     else:
                         raise AssertionError(e)
                 return 0, []
